@@ -158,6 +158,12 @@ func RefScalar(k Kind, base int, s string) (interface{}, Verdict) {
 		}
 		return nil, Reject
 	case KBool:
+		if s == "" {
+			// an empty text where a boolean value is expected (the value part of
+			// a map entry "k:" or "k"): an occurrence without value means true for
+			// flags; whether that carries over is not stated anywhere
+			return true, DontCare
+		}
 		switch s {
 		case "1", "t", "T", "TRUE", "true", "True":
 			return true, Accept
